@@ -90,6 +90,31 @@ fn cases_structural(_rng: &mut Rng, sink: &mut dyn FnMut(J) -> bool) {
             for (kid, signer) in [(Some("k1"), &k1), (Some("k2"), &k2), (None, &k1), (Some("k2"), &k1), (Some("k1"), &k2), (None, &k2), (Some("k3"), &k2)] {
                 muts.push(json!({"kind": "kid", "kid": kid, "signer": signer}));
             }
+            // resolver keyed by issuer id (victim key vs another party's key): a token claiming the
+            // victim's iss but signed by the other party, carrying header parameters that point at it
+            for iss_form in ["url", "did"] {
+                for hp in [
+                    json!({}),
+                    json!({"kid": "did:example:mallory#key-1"}),
+                    json!({"kid": "did:example:mallory"}),
+                    json!({"kid": "did:example:mallory#"}),
+                    json!({"kid": "did:web:mallory.example#0"}),
+                    json!({"kid": "mallory"}),
+                    json!({"kid": "mallory#key-1"}),
+                    json!({"kid": "https://mallory.example/keys#1"}),
+                    json!({"kid": "https://mallory.example"}),
+                    json!({"kid": "#key-1"}),
+                    json!({"kid": "did:example:victim#key-1"}),
+                    json!({"kid": ""}),
+                    json!({"jku": "https://mallory.example/keys"}),
+                    json!({"x5u": "https://mallory.example/cert"}),
+                    json!({"kid": "did:example:mallory#key-1", "jku": "https://mallory.example/keys", "x5u": "https://mallory.example/cert", "typ": "sd+jwt", "cty": "did:example:mallory"}),
+                ] {
+                    for signer in ["mallory", "victim"] {
+                        muts.push(json!({"kind": "issuer_keyed", "iss_form": iss_form, "header": hp, "signer": signer}));
+                    }
+                }
+            }
             // attacker key shipped inside the protected header
             for signer in ["ES256-other", "EdDSA-other", "HS256-other"] {
                 for with_kid in [false, true] {
@@ -323,6 +348,31 @@ pub fn mutate(cfg: &Cfg, p: &Parts, m: &J) -> Option<(Parts, J)> {
             let resolver = json!({"$kid": {"k1": fam, "k2": format!("{fam}-other")}, "$default": fam});
             Some((Parts { jwt, disclosures: p.disclosures.clone(), kb: p.kb.clone() }, resolver))
         }
+        "issuer_keyed" => {
+            // resolver: victim issuer id -> the issuer key; every identifier of "mallory" -> the other key
+            let fam = keys::alg_of(&cfg.alg);
+            let other = format!("{fam}-other");
+            let mut pl = p.payload()?;
+            let victim_iss = if m["iss_form"] == "did" { "did:example:victim".to_string() } else { pl.get("iss")?.as_str()?.to_string() };
+            pl.insert("iss".into(), json!(victim_iss));
+            let mut resolver = serde_json::Map::new();
+            resolver.insert(victim_iss, json!(fam));
+            for id in ["did:example:mallory", "did:web:mallory.example", "mallory", "https://mallory.example", "https://mallory.example/keys", "https://mallory.example/cert", ""] {
+                resolver.insert(id.to_string(), json!(other));
+            }
+            let mut header = Header::new(Algorithm::from_str(fam).ok()?);
+            let hp = &m["header"];
+            header.kid = hp["kid"].as_str().map(String::from);
+            header.jku = hp["jku"].as_str().map(String::from);
+            header.x5u = hp["x5u"].as_str().map(String::from);
+            header.cty = hp["cty"].as_str().map(String::from);
+            if let Some(t) = hp["typ"].as_str() {
+                header.typ = Some(t.to_string());
+            }
+            let signer = if m["signer"] == "victim" { fam.to_string() } else { other };
+            let jwt = jsonwebtoken::encode(&header, &J::Object(pl), &keys::issuer_enc(&signer)).ok()?;
+            Some((Parts { jwt, disclosures: p.disclosures.clone(), kb: p.kb.clone() }, J::Object(resolver)))
+        }
         "embedded_jwk" => {
             let signer = m["signer"].as_str()?;
             let alg = keys::alg_of(signer);
@@ -408,6 +458,16 @@ pub fn check(case: &J) -> Verdict {
                 ),
             };
         }
+    }
+    if m["kind"] == "issuer_keyed" && m["signer"] == "victim" {
+        // signed by the key the resolver returns for the payload's iss: must be accepted whatever the header says
+        return match sut::verify_with(&text, &key, None, None, &cfg.format) {
+            Out::Ok(_) => Verdict::Pass,
+            o => fail(
+                format!("token signed by the key the resolver returns for its iss, header parameters {} -> {}", m["header"], o.brief()),
+                "accepted (the key is the one the resolver returns for the payload's iss)",
+            ),
+        };
     }
     match sut::verify_with(&text, &key, aud, nonce, &cfg.format) {
         Out::Err(_) => Verdict::Pass,
